@@ -37,7 +37,6 @@ import (
 	"fmt"
 	"strconv"
 	"strings"
-
 )
 
 // ---------------------------------------------------------------------------
@@ -799,7 +798,7 @@ func propC05(c *Ctx) {
 		if i < len(res) {
 			if !strings.HasPrefix(res[i], "ok x") {
 				// the reference encoder must accept what the implementation encodes (checked by go-ref-vs-lean-spec); nothing to decode
-				sDec.Dist["spec-enc:"+strings.Fields(res[i]+" -")[0]]++
+				sDec.Dist["spec-enc:"+strings.Fields(res[i] + " -")[0]]++
 				continue
 			}
 			bs = unhx(res[i][3:])
